@@ -388,7 +388,8 @@ Definition sl (xdev : bool) (o : option sobj) : slot := {| sl_xdev := xdev; sl_o
 Inductive cspec :=
 | CNever
 | CStart                 (* before core.Transition is called *)
-| CProvide (j : nat).    (* inside the j-th Provider.Provide call (0-based) *)
+| CProvide (j : nat)     (* inside the j-th Provider.Provide call (0-based) *)
+| CAsync.                (* from another goroutine, at an unknown point: model not compared *)
 
 Record tcase := mkT {
   t_rn : name;
@@ -500,6 +501,7 @@ Definition model_agrees (fixed : bool) (c : tcase) : bool :=
   | CNever => agrees c (run_model fixed c no_faults)
   | CStart => agrees c (run_model fixed c (cancel_from 0))
   | CProvide _ => search_from (fun k => agrees c (run_model fixed c (cancel_from k))) 0 cancel_search
+  | CAsync => true
   end.
 
 (* ---------- well-formedness of a case ---------- *)
@@ -573,3 +575,11 @@ Definition c09_check (c : tcase) : bool :=
 
 Definition c09_failures := failures_with false c09_check no_known.
 Definition c09_failures_fixed := failures_with true c09_check no_known.
+
+(* C03 on disk: untracked content that appeared after the scan (at creation
+   targets, inside removed directories) is untouched *)
+Definition impl_c03 (c : tcase) : bool :=
+  check_c03_disk (t_rn c) (t_pre c) (t_post c) (t_plan c).
+
+Definition c03_failures := failures_with false impl_c03 no_known.
+Definition c03_failures_fixed := failures_with true impl_c03 no_known.
